@@ -229,16 +229,32 @@ def code_objects(code):
 
 
 def make_line_tracer(daemon, ctl):
-    """line-level yield points inside Daemon._getInstance (and its nested helpers): one scheduler step per source line"""
+    """line-level yield points inside Daemon._getInstance, its nested helpers and every function of Pyro5/server.py it
+    calls (private helper methods a refactoring may have split it into): one scheduler step per source line"""
+    import threading
     codes = code_objects(type(daemon)._getInstance.__code__)
+    srvfile = type(daemon)._getInstance.__code__.co_filename
+    inside = threading.local()
 
     def local(frame, event, arg):
         if event == "line":
             ctl.yield_point("line", frame.f_lineno)
         return local
 
+    def root(frame, event, arg):
+        if event == "line":
+            ctl.yield_point("line", frame.f_lineno)
+        elif event == "return" and frame.f_code is type(daemon)._getInstance.__code__:
+            inside.n = getattr(inside, "n", 1) - 1
+        return root
+
     def tracer(frame, event, arg):
-        if event == "call" and frame.f_code in codes:
+        if event != "call":
+            return None
+        if frame.f_code is type(daemon)._getInstance.__code__:
+            inside.n = getattr(inside, "n", 0) + 1
+            return root
+        if frame.f_code in codes or (getattr(inside, "n", 0) > 0 and frame.f_code.co_filename == srvfile):
             return local
         return None
     return tracer
@@ -269,18 +285,22 @@ def mode_of(spec):
     return "session" if spec["mode"] == "default" else spec["mode"]
 
 
-def call_result(fn):
+def call_result(fn, world=None, d=0, c=None, n0=None):
+    """served / failed (the creator raised) / failed-wrongtype (the daemon refused what the creator returned: a
+    TypeError while the creator of class c handed out a foreign object during this call; the message text is
+    incidental) / error (anything else)"""
+    if world is not None and n0 is None:
+        n0 = len(world.log.get(d, []))
     try:
         r = fn()
         return ["served", r]
     except Exception as x:       # noqa
         if x.args and x.args[0] == FAIL_MARK:
             return ["failed", False]
-        if not isinstance(x, TypeError):
-            return ["error", type(x).__name__ + ":" + str(x)[:80]]
-        if "different type" in str(x):
+        if isinstance(x, TypeError) and world is not None and \
+                any(i == c and o[0] == "wrong" for i, o in world.log.get(d, [])[n0:]):
             return ["failed", True]
-        return ["error", "TypeError:" + str(x)[:80]]
+        return ["error", type(x).__name__ + ":" + str(x)[:80]]
 
 
 ENDINGS = ("orderly", "reset", "stale", "error")
@@ -457,14 +477,14 @@ def run_real(case, tree="/repo"):
     clients, seqs = {}, {}
     nconn = 1 + max([ev[1] for ev in case["hist"] if ev[0] in ("call", "close")] + [-1])
 
-    def reply_to_result(m, c):
+    def reply_to_result(m, c, n0):
         if not isinstance(m, dict) or "value" not in m:
             return ["error", "NoReply:%r" % (m if not isinstance(m, dict) else m.get("value_error"),)]
         v = m["value"]
         if m["flags"] & protocol.FLAGS_EXCEPTION:
             def rs():
                 raise v
-            return call_result(rs)
+            return call_result(rs, world, 0, c, n0)
         if isinstance(v, (list, tuple)) and len(v) == 2 and isinstance(v[1], int):
             return ["served", v[1]] + list(world.bits.get((0, v[1]), (c, True, False)))
         return ["error", "BadResult:%r" % (v,)]
@@ -480,8 +500,9 @@ def run_real(case, tree="/repo"):
                         obs["errors"].append("handshake failed: %r" % (m,))
                     clients[k], seqs[k] = cl, 0
                 seqs[k] += 1
+                n0 = len(world.log.get(0, []))
                 clients[k].send(rawdrv.invoke_msg(pre + "id%d" % (ev[3] if len(ev) > 3 else c), "ident", (), {}, seq=seqs[k]))
-                obs["obs"].append(reply_to_result(clients[k].recv_msg(timeout=5.0), c))
+                obs["obs"].append(reply_to_result(clients[k].recv_msg(timeout=5.0), c, n0))
             elif ev[0] == "close":
                 k = ev[1]
                 if k in clients:
@@ -618,7 +639,7 @@ def run_impl(case, tree="/repo"):
                     cx.sconns[k] = cx.net.conns[cid].sconn
                     cx.lconns[k] = cx.net.conns[cid]
                 p = cx.proxies[k]
-                r = call_result(lambda: p._pyroInvoke("ident", [], {}, objectId=oid))
+                r = call_result(lambda: p._pyroInvoke("ident", [], {}, objectId=oid), world, d, c)
                 if r[0] == "served":
                     r = cx.served(r, c)
                 obs["obs"].append(r)
@@ -659,7 +680,8 @@ def run_impl(case, tree="/repo"):
                         sys.settrace(line_tracer)
                     try:
                         for c in cl:
-                            r = call_result(lambda: (lambda a: [getattr(a, "_daemon", cd), serial_of(a)])(daemon._getInstance(world.classes[c], conn)))
+                            r = call_result(lambda: (lambda a: [getattr(a, "_daemon", cd), serial_of(a)])(daemon._getInstance(world.classes[c], conn)),
+                                            world, cd, c)
                             if r[0] == "served":
                                 r = cx.served(r, c)
                             results[i].append([c, r])
@@ -1180,11 +1202,11 @@ def _execute(ctx, cases, model_ok, res):
 def all_cases(ctx):
     rng = ctx.rng
     cases = vlib.load_corpus(PROP) + family_cases() + real_family() + line_family()
-    for _ in range(min(ctx.n(100, 1500), 3000)):
+    for _ in range(min(ctx.n(100, 1500), 1500)):
         cases.append(gen_line_case(rng))
-    for _ in range(min(ctx.n(28, 300), 600)):
+    for _ in range(min(ctx.n(28, 300), 300)):
         cases.append(gen_real_case(rng))
-    for _ in range(min(ctx.n(900, 6000), 12000)):      # search (scale 10) is capped: ~30 ms per case
+    for _ in range(min(ctx.n(900, 6000), 6000)):      # search (scale 10) is capped: ~30 ms per case
         cases.append(gen_case(rng))
     return cases
 
